@@ -131,6 +131,81 @@ type Scenario struct {
 	// Agent asks for the configuration to be served by a real fake Agent
 	// (fake/gnmi.New, gRPC on loopback, outside the bubble) as well.
 	Agent bool `json:"agent,omitempty"`
+	// Cfg, if set, dresses the fake.Config message the Client and the Agent are
+	// given in fields and sub-messages that say nothing new about the stream.
+	Cfg *CfgShape `json:"cfg,omitempty"`
+}
+
+// Alternatives of Config.generator a scenario may carry next to the top-level
+// seed and values. fake.proto declares `random {seed, values}` as the
+// replacement of the deprecated top-level fields; every alternative below
+// names the SAME seed (or none) and the SAME values (or none) as the top level,
+// so whichever of the two places a target reads, the configuration describes
+// one stream. (Values that live only in the message, a seed in the message
+// that differs from the top-level one, and the `fixed` / `custom` generators
+// are different configurations and are not generated.)
+const (
+	GenUnset        = ""              // oneof not set
+	GenRandomEmpty  = "random-empty"  // random {}
+	GenRandomSeed   = "random-seed"   // random { seed: <Config.seed> }
+	GenRandomMirror = "random-mirror" // random { values: <copy of Config.values> }
+	GenRandomFull   = "random-full"   // random { seed: <Config.seed> values: <copy of Config.values> }
+)
+
+// CfgShape is the part of a fake.Config beyond target / seed / values /
+// disable_sync: the generator oneof (see above) and fields that do not take
+// part in generating the stream (fake.proto: listening port, per-RPC
+// credentials, TLS certificate, client type, tunnel certificate file).
+type CfgShape struct {
+	Gen        string `json:"gen,omitempty"`
+	Port       int32  `json:"port,omitempty"` // the Agent observation listens on port 0 whenever this is positive
+	Creds      string `json:"creds,omitempty"` // "" unset | "empty" = credentials {} | "set"
+	Cert       string `json:"cert,omitempty"`  // "" unset | "empty" = zero-length bytes | "set"
+	ClientType int32  `json:"client_type,omitempty"`
+	TunnelCrt  string `json:"tunnel_crt,omitempty"`
+	NoTarget   bool   `json:"no_target,omitempty"` // Config.target left empty
+}
+
+// buildConfig builds a fresh fake.Config for the scenario (nothing shared with
+// the scenario or with an earlier result).
+func (sc *Scenario) buildConfig(forAgent bool) *fpb.Config {
+	cfg := &fpb.Config{Target: "c20", Seed: sc.Seed, Values: sc.buildValues(), DisableSync: sc.DisableSync}
+	s := sc.Cfg
+	if s == nil {
+		return cfg
+	}
+	switch s.Gen {
+	case GenRandomEmpty:
+		cfg.Generator = &fpb.Config_Random{Random: &fpb.RandomGenerator{}}
+	case GenRandomSeed:
+		cfg.Generator = &fpb.Config_Random{Random: &fpb.RandomGenerator{Seed: sc.Seed}}
+	case GenRandomMirror:
+		cfg.Generator = &fpb.Config_Random{Random: &fpb.RandomGenerator{Values: sc.buildValues()}}
+	case GenRandomFull:
+		cfg.Generator = &fpb.Config_Random{Random: &fpb.RandomGenerator{Seed: sc.Seed, Values: sc.buildValues()}}
+	}
+	cfg.Port = s.Port
+	if forAgent && cfg.Port > 0 {
+		cfg.Port = 0 // a real listener: let the kernel choose
+	}
+	switch s.Creds {
+	case "empty":
+		cfg.Credentials = &fpb.Credentials{}
+	case "set":
+		cfg.Credentials = &fpb.Credentials{Username: "c20", Password: "secret"}
+	}
+	switch s.Cert {
+	case "empty":
+		cfg.Cert = []byte{}
+	case "set":
+		cfg.Cert = []byte("-----BEGIN CERTIFICATE-----\nnot a certificate\n-----END CERTIFICATE-----\n")
+	}
+	cfg.ClientType = fpb.Config_ClientType(s.ClientType)
+	cfg.TunnelCrt = s.TunnelCrt
+	if s.NoTarget {
+		cfg.Target = ""
+	}
+	return cfg
 }
 
 func pathOf(i int) []string { return []string{"c20", "v" + strconv.Itoa(i)} }
